@@ -1011,6 +1011,38 @@ func runC12(w *World, r *Report) {
 		if n == 0 {
 			undecidedf("C12.nil-form-needs-no-codec: no codec call on internalStruct.JSONValue in internalUnmarshal")
 		}
+		// … and the null form is the OUTERMOST nil only: the encoder writes null for a nil at any pointer level and tells
+		// the levels apart by NonNilPointerNum alone, so the decoder's answer to null stands behind its test of that count
+		fNonNil := w.Field("internal/serialization", "internalStruct", "NonNilPointerNum")
+		bytesTest := func(g guard) bool {
+			found := false
+			var visit func(v ssa.Value, d int)
+			visit = func(v ssa.Value, d int) {
+				if v == nil || d > 8 || found {
+					return
+				}
+				if isLoadOfField(v, fJSON) {
+					found = true
+					return
+				}
+				if ins, ok := v.(ssa.Instruction); ok {
+					for _, op := range ins.Operands(nil) {
+						visit(*op, d+1)
+					}
+				}
+			}
+			visit(g.cond, 0)
+			return found
+		}
+		k := 0
+		instrs(iu, func(in ssa.Instruction) {
+			ret, ok := in.(*ssa.Return)
+			if !ok || !hasGuard(ret.Block(), func(g guard) bool { return g.pol && bytesTest(g) }) {
+				return
+			}
+			k++
+			r.Check(hasGuard(ret.Block(), guardOnField(fNonNil)), "C12.nil-form-needs-no-codec", fmt.Sprintf("internalUnmarshal: answer #%d to the null form", k), ret.Pos(), "behind the test of NonNilPointerNum", "null is answered with a nil outermost pointer before the inner-nil count is looked at: a non-nil **T (or ***T) that leads to a nil pointer comes back as a nil pointer at the outermost level, silently, in every position (a state field MaxCalls **int set to 'unlimited' reads 'default' after resume)")
+		})
 	}
 	shareRule(w, r, "C12.decoded-channel-taken-whole", "what was decoded of a channel is what the run continues with: load copies every exported field of the decoded channel (the bytes are right, the restored value must be too)", 8, "C05", "C05.channel-state")
 
